@@ -8,6 +8,7 @@ from .. import gen
 from ..core import Clause, Violation
 
 META = {
+    "thorough_scale": 4,
     "level": "exploration",
     "rule": (
         "Hypothesis-generated (source image incl. animated frames, style, method, style args, alpha, "
